@@ -51,6 +51,13 @@ def const(v):
     return ("const", v)
 
 
+def lit(v):
+    """Term of a folded Python value: dictionaries become 'dict' terms (a term must stay hashable)."""
+    if isinstance(v, dict):
+        return ("dict", tuple((lit(k), lit(x)) for k, x in v.items()))
+    return ("const", v)
+
+
 def is_const(t, v=...):
     return isinstance(t, tuple) and t and t[0] == "const" and (v is ... or (t[1] == v and type(t[1]) is type(v)))
 
@@ -631,10 +638,27 @@ class TermAnalysis(Analysis):
         if isinstance(r, Module):
             return ("global", r.name)
         if isinstance(r, tuple) and r[0] == "modconst":
+            node = self.prog.module_assigns(r[1]).get(r[2])
             try:
-                return const(self.prog.fold(self.prog.module_assigns(r[1])[r[2]], r[1]))
+                return lit(self.prog.fold(node, r[1]))
             except Exception:
-                return ("global", f"{r[1].name}.{r[2]}")
+                pass
+            # a module-level literal table whose entries are not plain constants (classes, functions): its term, provided the
+            # name is bound exactly once in its module (a table, not a variable)
+            if isinstance(node, (ast.Dict, ast.Tuple, ast.List)) and r[1] is self.m and len(getattr(node, "keys", getattr(node, "elts", []))) <= 24:
+                binds = sum(1 for n in ast.walk(r[1].tree) if isinstance(n, ast.Name) and isinstance(n.ctx, ast.Store) and n.id == r[2])
+                mutated = any(isinstance(n, ast.Attribute) and isinstance(n.value, ast.Name) and n.value.id == r[2] and n.attr in MUTATORS for n in ast.walk(r[1].tree)) or \
+                    any(isinstance(n, ast.Subscript) and isinstance(n.ctx, (ast.Store, ast.Del)) and isinstance(n.value, ast.Name) and n.value.id == r[2] for n in ast.walk(r[1].tree))
+                if binds == 1 and not mutated:
+                    saved = self.record
+                    self.record = False
+                    try:
+                        return self.ev(node, State({}))
+                    except AnalysisError:
+                        pass
+                    finally:
+                        self.record = saved
+            return ("global", f"{r[1].name}.{r[2]}")
         return ("global", name)
 
     def _attr(self, base: Term, name: str) -> Term:
@@ -663,7 +687,7 @@ class TermAnalysis(Analysis):
                 a = self.prog.lookup_class_attr(c, name)
                 if a is not None:
                     try:
-                        return const(self.prog.fold(a[1], a[0].module, a[0]))
+                        return lit(self.prog.fold(a[1], a[0].module, a[0]))
                     except Exception:
                         return ("attr", base, name)
             elif q in self.prog.modules:
@@ -732,6 +756,16 @@ class TermAnalysis(Analysis):
                         None if sl.step is None else const(sl.step))
             if base[0] in ("tuple", "list") and is_const(idx) and isinstance(idx[1], int) and -len(base[1]) <= idx[1] < len(base[1]):
                 return base[1][idx[1]]
+            if base[0] == "dict" and 0 < len(base[1]) <= 12 and all(k[0] in ("const", "enum") for k, _v in base[1]) and not (idx[0] in ("const", "enum")):
+                # TABLE[x] for a literal table: v1 if x == k1 else v2 if x == k2 ... (a missing key raises KeyError)
+                out = ("top", "KeyError: key not in the table")
+                for k, v in reversed(base[1]):
+                    out = ("ite", ("cmp", "==", idx, k), v, out)
+                return out
+            if base[0] == "dict" and idx[0] in ("const", "enum"):
+                for k, v in base[1]:
+                    if k == idx:
+                        return v
             if is_const(base) and isinstance(base[1], (tuple, list)) and 2 <= len(base[1]) <= 4 and not is_const(idx) \
                     and all(isinstance(x, (int, float, bool, str, bytes, type(None))) for x in base[1]):
                 # TABLE[i] for a small constant table: the chain  TABLE[0] if i == 0 else TABLE[1] ... (an index outside the table raises)
@@ -895,6 +929,10 @@ class TermAnalysis(Analysis):
                         parts.append(t[2][k])
                         k += 1
                 return ("fstr", tuple(parts))
+        if t[0] == "call" and t[1] == ("ext", "str") and (len(t[2]) >= 2 or (len(t[2]) == 1 and dict(t[3]).get("encoding") is not None)):
+            # str(buffer, encoding) decodes the buffer: buffer.decode(encoding)
+            enc = t[2][1] if len(t[2]) >= 2 else dict(t[3])["encoding"]
+            t = ("call", ("meth", t[2][0], "decode"), (enc,), ())
         if t[0] == "call" and t[1] == ("ext", "math.trunc") and len(t[2]) == 1 and not t[3]:
             t = ("call", ("ext", "int"), t[2], ())            # on numbers math.trunc(x) is int(x)
         if t[0] == "call" and t[1] == ("ext", "int") and len(t[2]) == 1 and len(t[3]) == 1 and t[3][0][0] == "base":
@@ -1240,7 +1278,7 @@ class TermEngine(Engine):
                     tg = n.targets if isinstance(n, ast.Assign) else [n.target]
                     if not all(isinstance(t, ast.Name) or (isinstance(t, ast.Attribute) and isinstance(t.value, ast.Name)) for t in tg):
                         return False
-                elif isinstance(n, ast.Continue):
+                elif isinstance(n, (ast.Continue, ast.Return, ast.Raise)):
                     continue
                 elif isinstance(n, ast.If):
                     if not (pure(n.body) and pure(n.orelse)):
